@@ -35,6 +35,33 @@ theorem C11_load (files : List FileDoc) (hne : files ≠ [])
   rw [build_accOf]
   cases Spec.model files <;> rfl
 
+/-- the same for files that are not laid out compactly: in front of every element and before
+    the end of each file there may be any number of events a loader passes over - white space
+    and other text, comments, processing instructions, CDATA, unknown elements (pretty-printed
+    files, vendor extensions).  The model returned is that of the elements alone. -/
+theorem C11_load_gapped (files : List (List (List XmlEv × Elem) × List XmlEv)) (hne : files ≠ [])
+    (hw : ∀ f ∈ files, f.1.all (fun x => x.1.all isGap && x.2.wf) = true ∧ f.2.all isGap = true) :
+    gatherFibexData (files.map fun f => some (renderGapped f.1 f.2))
+      = .ok (Spec.model (files.map fun f => f.1.map (·.2))) := by
+  unfold gatherFibexData
+  have hemp : (files.map fun f => some (renderGapped f.1 f.2)).isEmpty = false := by
+    cases files with
+    | nil => exact absurd rfl hne
+    | cons _ _ => rfl
+  rw [hemp]
+  simp only [Bool.false_eq_true, if_false]
+  unfold readFibexes
+  rw [readFiles_renderGapped files hw, accAdd_empty]
+  simp only []
+  rw [build_accOf]
+  cases Spec.model (files.map fun f => f.1.map (·.2)) <;> rfl
+
+-- non-vacuity: a comment, white space and an unknown empty element in front of a SIGNAL, white
+-- space before the end
+example : ([([.other, .text (some [0x0A#8, 0x20#8]), .empty .other []], Elem.signal [0x53#8] [0x43#8])]
+    : List (List XmlEv × Elem)).all (fun x => x.1.all isGap && x.2.wf) = true
+    ∧ ([XmlEv.text (some [0x0A#8])]).all isGap = true := by decide
+
 /-- distribution over several files does not matter: only the concatenation of the
     documents' elements does -/
 theorem C11_partition (files files' : List FileDoc) (hne : files ≠ []) (hne' : files' ≠ [])
@@ -282,10 +309,10 @@ theorem C11_lookup (md : FibexMetadata) (id : Nat) :
 /-- non-vacuity: a document with a PDU (two signal instances in descending sequence order,
     one of them unknown), a signal, a coding and a frame with extension is well-formed -/
 example : ([ .pdu { id := [0x50#8], shortName := some [0x6E#8], desc := none, byteLength := 3,
-                    signals := [⟨[1#8], 2, N_S_BOOL⟩, ⟨[2#8], 1, [0x3F#8]⟩] },
+                    signals := [⟨[1#8], 2, N_S_BOOL, false⟩, ⟨[2#8], 1, [0x3F#8], true⟩] },
              .signal [0x53#8] [0x43#8], .coding [0x43#8] N_A_UINT8,
              .frame { id := [0x46#8], shortName := [0x66#8], byteLength := 3,
-                      pdus := [⟨[3#8], 0, [0x50#8]⟩],
+                      pdus := [⟨[3#8], 0, [0x50#8], true⟩],
                       ext := some ⟨none, some [0x31#8], some [0x41#8], some [0x43#8]⟩ } ] : FileDoc).all
     Elem.wf = true := by decide
 
